@@ -85,10 +85,14 @@ type c14Callbacks struct {
 	msg    int
 	echo   bool
 	node   *c14State
+	// blocking: OnData keeps reading whole messages, parked inside ReadBytes between messages
+	blocking bool
 }
 
 func (cb *c14Callbacks) OnData(r BufferReader) {
-	for r.Len() >= cb.msg {
+	// blocking style: keep reading whole messages, i.e. between messages this invocation is parked inside ReadBytes
+	// (documented use: ReadBytes blocks until enough data arrived). At the session's end that read must fail.
+	for cb.blocking || r.Len() >= cb.msg {
 		b, err := r.ReadBytes(cb.msg)
 		if err != nil {
 			return
@@ -289,9 +293,14 @@ func c14Node(args []string) {
 				return
 			}
 			if bad := checkKeyed(b, uint64(idx), uint64(r*cf.MsgSize)); bad >= 0 {
-				repMu.Lock()
-				rep.Note += fmt.Sprintf("echo mismatch on stream %d at byte %d; ", st.StreamID(), bad)
-				repMu.Unlock()
+				// a read that overlaps the session's teardown may see recycled buffers (known finding F2: teardown does not wait
+				// for users); only a mismatch on a session that is not shutting down is a data-integrity problem
+				if !s.IsClosed() {
+					repMu.Lock()
+					rep.Note += fmt.Sprintf("echo mismatch on stream %d at byte %d; ", st.StreamID(), bad)
+					repMu.Unlock()
+				}
+				return
 			}
 			st.BufferReader().ReleasePreviousRead()
 			atomic.AddInt64(&node.roundTrips, 1)
@@ -315,7 +324,7 @@ func c14Node(args []string) {
 				break
 			}
 			if cf.Callbacks && i%2 == 1 {
-				cb := &c14Callbacks{st: st, msg: cf.MsgSize, node: node}
+				cb := &c14Callbacks{st: st, msg: cf.MsgSize, node: node, blocking: i%4 == 3}
 				st.SetCallbacks(cb)
 				if st.IsOpen() {
 					// only a stream that was still open once its callbacks were installed owes a close callback
@@ -360,7 +369,7 @@ func c14Node(args []string) {
 				// callback mode for the streams the client also runs in callback mode (its odd-indexed initial streams, ids 3, 5, …);
 				// streams opened later by the client's churn are always served synchronously
 				if id := st.StreamID(); cf.Callbacks && int(id) <= cf.Streams+1 && (id-2)%2 == 1 {
-					cb := &c14Callbacks{st: st, msg: cf.MsgSize, echo: true, node: node}
+					cb := &c14Callbacks{st: st, msg: cf.MsgSize, echo: true, node: node, blocking: st.StreamID()%4 == 1}
 					st.SetCallbacks(cb)
 					if st.IsOpen() {
 						repMu.Lock()
@@ -1080,7 +1089,7 @@ func checkDeath(c *checkCtx) {
 						continue
 					}
 					for _, k := range fp.ks {
-						add(c14Case{Kind: "peer-fault", SurvivorRole: role, Memfd: memfd, Streams: 1 + int(k%8), Callbacks: k%2 == 0, Action: action, Point: fp.point, K: k})
+						add(c14Case{Kind: "peer-fault", SurvivorRole: role, Memfd: memfd, Streams: 4 + int(k%5), Callbacks: (k+int64(len(cases)))%2 == 0, Action: action, Point: fp.point, K: k})
 					}
 				}
 			}
@@ -1094,7 +1103,7 @@ func checkDeath(c *checkCtx) {
 		cases = cases[:52]
 	}
 	for i := 0; i < c.pick(6, 60); i++ {
-		add(c14Case{Kind: "external-kill", SurvivorRole: []string{"server", "client"}[i%2], Memfd: i%4 < 2, Streams: 1 + i%8, Callbacks: i%3 == 0})
+		add(c14Case{Kind: "external-kill", SurvivorRole: []string{"server", "client"}[i%2], Memfd: i%4 < 2, Streams: 4 + i%5, Callbacks: i%3 != 1})
 	}
 	for i := 0; i < c.pick(10, 120); i++ {
 		add(c14Case{Kind: "close-storm", Closers: []int{1, 2, 8}[i%3], Streams: 1 + i%6, Memfd: i%2 == 0, Both: i%4 >= 2, Openers: i % 3})
